@@ -21,7 +21,7 @@ ASSUMPTIONS = ["a bundle is the map of its non-zero members (as on a Factorio wi
 
 
 def budget(tier):
-    return {"examples": 1600 if tier == "quick" else 30000, "wall_s": 110 if tier == "quick" else 1500}
+    return {"examples": 1600 if tier == "quick" else 30000, "wall_s": 110 if tier == "quick" else 900}
 
 
 @st.composite
